@@ -23,6 +23,9 @@ def _swap_first_two(tree):
     return False
 
 
+CONFM = 'beartype/_conf/confmain.py'
+HTE = 'beartype/_check/cls/hint/tree/hinttreeerror.py'
+
 VARIANTS = {
     # ---- R1 --------------------------------------------------------------------------------------
     'overrides-not-first': tseeded(RED, _swap_first_two, 'C18.R1',
@@ -53,6 +56,12 @@ VARIANTS = {
     'violation-type-read-by-generator': tseeded(LOG, lambda t: replace_where(
         t, lambda n: isinstance(n, ast.If) and ast.unparse(n.test) == 'cause.conf.is_random',
         lambda n: (setattr(n, 'test', expr('cause.conf.is_random and cause.conf.violation_type is not None')) or n)), 'C18.R4'),
+    # ---- R7 / R8 ---------------------------------------------------------------------------------------------------
+    'return-warn-flag-from-param-option': tseeded(CONFM, lambda t: replace_where(
+        t, lambda n: isinstance(n, ast.Attribute) and n.attr == '_violation_return_type' and isinstance(n.ctx, ast.Load),
+        lambda n: expr('self._violation_param_type'), scope='BeartypeConf.__new__'), 'C18.R7', 'seeded C03-23'),
+    'explainer-builds-metadata-itself': tseeded(HTE, lambda t: (find_def(t, 'HintTreeError.hint_childs_sane').body.insert(
+        1, stmts('if False:\n    make_hint_sane(hint=None, hint_parent_sane=None)')[0]) or True), 'C18.R8', 'seeded C18-22 (shape)'),
     # ---- neutral ----------------------------------------------------------------------------------
     'n-roundtrip-redmain': roundtrip(RED),
     'n-roundtrip-overrides': roundtrip(OVR),
